@@ -33,7 +33,7 @@ from typing import Tuple, Optional, Dict
 from deep.api.tracepoint import Variable, VariableId
 from deep.processor.bfs import ParentNode, Node, NodeValue, breadth_first_search
 from deep.processor.variable_processor import process_variable, \
-    process_child_nodes, Collector
+    process_child_nodes, Collector, placeholder
 
 
 class VariableCacheProvider:
@@ -170,7 +170,7 @@ class VariableSetProcessor(Collector):
         try:
             return str(value)
         except BaseException:
-            return f'{type(value)}@{id(value)}'
+            return placeholder(value)
 
     def search_function(self, node: Node) -> bool:
         """
